@@ -149,3 +149,63 @@ Proof.
   - destruct (cs_ppos st); [|congruence].
     destruct ((c :: r) ++ tr) eqn:E2; [destruct r; discriminate|]. reflexivity.
 Qed.
+
+(** * The side conditions depend on the parsing state only through its math-mode flag *)
+Lemma sub_in_math ps b d : f_in_math (ps_f (sub_context ps [UInMath b; UMathDelim d])) = b.
+Proof.
+  unfold sub_context. cbn [ps_f filter]. set (f0 := ps_f ps).
+  assert (N : forall f, f_in_math (normalize f) = f_in_math f).
+  { intros f. unfold normalize. destruct (_ && _); reflexivity. }
+  assert (H1 : changes f0 (UInMath b) = false -> f_in_math f0 = b).
+  { cbn [changes]. intros C1. apply negb_false_iff in C1. apply eqb_prop in C1. symmetry. exact C1. }
+  destruct (changes f0 (UInMath b)) eqn:C1; destruct (changes f0 (UMathDelim d)) eqn:C2;
+    cbn [fold_left]; rewrite N; cbn; auto.
+Qed.
+
+Lemma adelta_in_math ps ps' d : f_in_math (ps_f ps) = f_in_math (ps_f ps') ->
+  f_in_math (ps_f (apply_adelta ps d)) = f_in_math (ps_f (apply_adelta ps' d)).
+Proof.
+  intros H. destruct d; cbn [apply_adelta]; [exact H| |]; unfold ps_enter_math, ps_leave_math; rewrite !sub_in_math;
+    reflexivity.
+Qed.
+
+Lemma ok_state cx : forall n,
+  (forall i, isize i <= n -> forall ps ps' nxt, f_in_math (ps_f ps) = f_in_math (ps_f ps') ->
+             ok_item cx ps i nxt = ok_item cx ps' i nxt) /\
+  (forall l, lsize l <= n -> forall ps ps' fh, f_in_math (ps_f ps) = f_in_math (ps_f ps') ->
+             ok_items cx ps l fh = ok_items cx ps' l fh).
+Proof.
+  induction n as [|n [IHi IHl]].
+  - split.
+    + intros i SZ. pose proof (isize_pos i). lia.
+    + intros [|i l] SZ ps ps' fh H; [reflexivity|]. rewrite lsize_cons in SZ. pose proof (isize_pos i). lia.
+  - assert (ITEM : forall i, isize i <= S n -> forall ps ps' nxt, f_in_math (ps_f ps) = f_in_math (ps_f ps') ->
+                   ok_item cx ps i nxt = ok_item cx ps' i nxt).
+    { intros i SZ ps ps' nxt H.
+      destruct i as [ws cs|ws b tr|ws name post args|ws k b tr|ws text post|ws mid]; try reflexivity.
+      - rewrite !ok_item_grp. cbn [isize] in SZ. fold (lsize b) in SZ.
+        rewrite (IHl b ltac:(lia) ps ps' _ H). reflexivity.
+      - destruct (get_macro_spec cx name) as [sp|] eqn:GS; [|cbn [ok_item]; rewrite GS; reflexivity].
+        destruct (sp_args sp) as [l|lk] eqn:SA; [|cbn [ok_item]; rewrite GS, SA; reflexivity].
+        rewrite !(ok_item_mac cx _ ws name post args _ sp l GS SA).
+        cbn [isize] in SZ. fold (lsize args) in SZ.
+        assert (A : ok_args cx ps args l = ok_args cx ps' args l).
+        { clear GS SA. revert l SZ. induction args as [|a args IHa]; intros [|spc l] SZ; try reflexivity.
+          rewrite lsize_cons in SZ. cbn [ok_args].
+          rewrite (IHa l ltac:(lia)).
+          destruct a as [|aw ab atr| | | |]; try reflexivity. destruct aw; [|reflexivity].
+          rewrite (IHi (Grp [] ab atr) ltac:(lia) _ _ None (adelta_in_math ps ps' (a_delta spc) H)). reflexivity. }
+        rewrite A. reflexivity.
+      - rewrite !ok_item_math, H. cbn [isize] in SZ. fold (lsize b) in SZ.
+        rewrite (IHl b ltac:(lia) (ps_enter_math ps (Some (m_open k))) (ps_enter_math ps' (Some (m_open k))) _).
+        + reflexivity.
+        + unfold ps_enter_math. rewrite !sub_in_math. reflexivity. }
+    split; [exact ITEM|].
+    induction l as [|i l IHL]; intros SZ ps ps' fh H; [reflexivity|].
+    rewrite lsize_cons in SZ. pose proof (isize_pos i). rewrite !ok_items_cons.
+    rewrite (ITEM i ltac:(lia) ps ps' _ H), (IHL ltac:(lia) ps ps' fh H). reflexivity.
+Qed.
+
+Lemma ok_items_state cx ps ps' l fh : f_in_math (ps_f ps) = f_in_math (ps_f ps') ->
+  ok_items cx ps l fh = ok_items cx ps' l fh.
+Proof. intros H. exact (proj2 (ok_state cx (lsize l)) l (le_n _) ps ps' fh H). Qed.
